@@ -313,15 +313,35 @@ fn add_where<S: ConditionalStatement>(q: &mut S, e: &E, d: Dialect, k: u8) {
 }
 
 pub fn build_window(w: &WinSpec, d: Dialect) -> WindowStatement {
-    let mut ws = WindowStatement::new();
-    for p in &w.partition {
+    let k = crate::runner::fingerprint(w);
+    let mut parts = w.partition.iter();
+    let mut ws = match (k % 2, w.partition.first()) {
+        // the constructor that takes the first PARTITION BY column
+        (1, Some(E::Col(i))) => {
+            parts.next();
+            WindowStatement::partition_by(al(crate::expr_spec::COLS[*i as usize % 4]))
+        }
+        _ => WindowStatement::new(),
+    };
+    for p in parts {
         ws.add_partition_by(p.build(d));
     }
     for o in &w.order {
-        add_order(&mut ws, o, d);
+        add_order_k(&mut ws, o, d, (k >> 1) % 2 == 1);
     }
     if let Some((rows, start, end)) = &w.frame {
-        ws.frame(if *rows { FrameType::Rows } else { FrameType::Range }, frame_of(*start), end.map(frame_of));
+        let ty = if *rows { FrameType::Rows } else { FrameType::Range };
+        match ((k >> 2) % 2, end) {
+            (1, None) => {
+                ws.frame_start(ty, frame_of(*start));
+            }
+            (1, Some(e)) => {
+                ws.frame_between(ty, frame_of(*start), frame_of(*e));
+            }
+            _ => {
+                ws.frame(ty, frame_of(*start), end.map(frame_of));
+            }
+        }
     }
     ws
 }
@@ -340,6 +360,34 @@ fn add_order<S: OrderedStatement>(s: &mut S, o: &OrdSpec, d: Dialect) {
             s.order_by_expr_with_nulls(o.e.build(d), order, if first { NullOrdering::First } else { NullOrdering::Last });
         }
     }
+}
+
+/// ORDER BY term; with `shortcuts` a plain column goes through the column entry points
+fn add_order_k<S: OrderedStatement>(s: &mut S, o: &OrdSpec, d: Dialect, shortcuts: bool) {
+    if shortcuts && !matches!(o.dir, Dir::Field(_)) {
+        let order = if matches!(o.dir, Dir::Asc) { Order::Asc } else { Order::Desc };
+        let nulls = o.nulls.map(|first| if first { NullOrdering::First } else { NullOrdering::Last });
+        match (&o.e, nulls) {
+            (E::Col(i), None) => {
+                s.order_by(al(crate::expr_spec::COLS[*i as usize % 4]), order);
+                return;
+            }
+            (E::Col(i), Some(n)) => {
+                s.order_by_with_nulls(al(crate::expr_spec::COLS[*i as usize % 4]), order, n);
+                return;
+            }
+            (E::QCol(t, c), None) => {
+                s.order_by_columns([((al(QUALS[*t as usize % 8]), al(QCOLS[*c as usize % 5])), order)]);
+                return;
+            }
+            (E::QCol(t, c), Some(n)) => {
+                s.order_by_columns_with_nulls([((al(QUALS[*t as usize % 8]), al(QCOLS[*c as usize % 5])), order, n)]);
+                return;
+            }
+            _ => {}
+        }
+    }
+    add_order(s, o, d);
 }
 
 fn table_ref(f: &FromSpec) -> Option<TableRef> {
@@ -397,11 +445,30 @@ pub fn build_select(s: &SelectSpec, d: Dialect) -> SelectStatement {
             q.distinct_on(cols.iter().map(|c| al(QCOLS[*c as usize % 5])).collect::<Vec<_>>());
         }
     }
+    let bit = |n: u8| (s.api >> n) & 1 == 1;
     for it in &s.items {
+        // plain columns through the column shortcuts
+        if bit(1) && it.win.is_none() && it.alias.is_none() {
+            match &it.e {
+                E::Col(i) => {
+                    q.column(al(crate::expr_spec::COLS[*i as usize % 4]));
+                    continue;
+                }
+                E::QCol(t, c) => {
+                    q.columns([(al(QUALS[*t as usize % 8]), al(QCOLS[*c as usize % 5]))]);
+                    continue;
+                }
+                _ => {}
+            }
+        }
         let e = it.e.build(d);
         match (&it.win, it.alias) {
             (None, None) => {
-                q.expr(e);
+                if bit(2) {
+                    q.exprs([e]);
+                } else {
+                    q.expr(e);
+                }
             }
             (None, Some(a)) => {
                 q.expr_as(e, al(ITEM_ALIASES[a as usize % 4]));
@@ -422,6 +489,9 @@ pub fn build_select(s: &SelectSpec, d: Dialect) -> SelectStatement {
     }
     for f in &s.from {
         match f {
+            FromSpec::Table(t, Some(a)) if bit(2) => {
+                q.from_as(al(TABLES[*t as usize % 3]), al(QUALS[*a as usize % 8]));
+            }
             FromSpec::Table(..) | FromSpec::Cte(..) => {
                 q.from(table_ref(f).unwrap());
             }
@@ -444,6 +514,9 @@ pub fn build_select(s: &SelectSpec, d: Dialect) -> SelectStatement {
             JoinKind::Cross => JoinType::CrossJoin,
         };
         match &j.src {
+            FromSpec::Table(t, Some(a)) if bit(2) => {
+                q.join_as(kind, al(TABLES[*t as usize % 3]), al(QUALS[*a as usize % 8]), build_cond(&j.on, d));
+            }
             FromSpec::Table(..) | FromSpec::Cte(..) => {
                 let t = table_ref(&j.src).unwrap();
                 let on = build_cond(&j.on, d);
@@ -471,10 +544,30 @@ pub fn build_select(s: &SelectSpec, d: Dialect) -> SelectStatement {
         }
     }
     for (i, w) in s.wheres.iter().enumerate() {
-        add_where(&mut q, w, d, s.api.wrapping_add(i as u8));
+        let k = s.api.wrapping_add(i as u8);
+        match (k % 7, matches!(w, E::Cond { .. })) {
+            (5, false) => {
+                let e = w.build(d);
+                q.conditions(true, |x| { x.and_where(e); }, |_| {});
+            }
+            (6, false) => {
+                q.apply_if(Some(w.build(d)), |x, e| { x.and_where(e); });
+            }
+            _ => add_where(&mut q, w, d, k),
+        }
     }
     for g in &s.groups {
-        q.add_group_by([g.build(d)]);
+        match g {
+            E::Col(i) if bit(3) => {
+                q.group_by_col(al(crate::expr_spec::COLS[*i as usize % 4]));
+            }
+            E::QCol(t, c) if bit(3) => {
+                q.group_by_columns([(al(QUALS[*t as usize % 8]), al(QCOLS[*c as usize % 5]))]);
+            }
+            _ => {
+                q.add_group_by([g.build(d)]);
+            }
+        }
     }
     for (i, h) in s.havings.iter().enumerate() {
         if matches!(h, E::Cond { .. }) {
@@ -492,10 +585,14 @@ pub fn build_select(s: &SelectSpec, d: Dialect) -> SelectStatement {
             Un::Intersect => UnionType::Intersect,
             Un::Except => UnionType::Except,
         };
-        q.union(ut, build_select(sub, d));
+        if bit(6) {
+            q.unions([(ut, build_select(sub, d))]);
+        } else {
+            q.union(ut, build_select(sub, d));
+        }
     }
     for o in &s.orders {
-        add_order(&mut q, o, d);
+        add_order_k(&mut q, o, d, bit(4));
     }
     if let Some(l) = s.limit {
         q.limit(l);
@@ -507,6 +604,16 @@ pub fn build_select(s: &SelectSpec, d: Dialect) -> SelectStatement {
         let ty = [LockType::Update, LockType::NoKeyUpdate, LockType::Share, LockType::KeyShare][l.ty as usize % 4];
         let tables: Vec<Alias> = l.tables.iter().map(|t| al(TABLES[*t as usize % 3])).collect();
         match l.behavior % 3 {
+            0 if tables.is_empty() && bit(5) => {
+                match ty {
+                    LockType::Update if bit(4) => q.lock_exclusive(),
+                    LockType::Share if bit(4) => q.lock_shared(),
+                    _ => q.lock(ty),
+                };
+            }
+            1 | 2 if tables.is_empty() && bit(5) => {
+                q.lock_with_behavior(ty, if l.behavior % 3 == 1 { LockBehavior::Nowait } else { LockBehavior::SkipLocked });
+            }
             0 => {
                 q.lock_with_tables(ty, tables);
             }
@@ -563,6 +670,9 @@ pub fn build_conflict(c: &ConflictSpec, d: Dialect) -> OnConflict {
         ConflictAction::DoNothingOn(k) => {
             oc.do_nothing_on(k.iter().map(|t| al(T3COLS[*t as usize % 6])).collect::<Vec<_>>());
         }
+        ConflictAction::UpdateColumns(cols) if cols.len() == 1 && c.api >= 128 => {
+            oc.update_column(al(T3COLS[cols[0] as usize % 6]));
+        }
         ConflictAction::UpdateColumns(cols) => {
             oc.update_columns(cols.iter().map(|t| al(T3COLS[*t as usize % 6])).collect::<Vec<_>>());
         }
@@ -609,6 +719,9 @@ pub fn build_insert(s: &InsertSpec, d: Dialect) -> InsertStatement {
         }
         InsertSource::Select(sel) => {
             q.select_from(build_select(sel, d)).expect("generator keeps the arity");
+        }
+        InsertSource::Default(1) if s.api % 2 == 1 => {
+            q.or_default_values();
         }
         InsertSource::Default(n) => {
             q.or_default_values_many(*n);
@@ -704,6 +817,8 @@ pub enum Built {
     Insert(InsertStatement),
     Update(UpdateStatement),
     Delete(DeleteStatement),
+    /// `stmt.with(clause)`: the WithQuery wrapper
+    With(WithQuery),
 }
 
 #[macro_export]
@@ -714,12 +829,37 @@ macro_rules! on_built {
             $crate::stmt_spec::Built::Insert($s) => $body,
             $crate::stmt_spec::Built::Update($s) => $body,
             $crate::stmt_spec::Built::Delete($s) => $body,
+            $crate::stmt_spec::Built::With($s) => $body,
         }
     };
 }
 
 impl Stmt {
     pub fn build(&self, d: Dialect) -> Built {
+        // a top-level WITH clause through `stmt.with(clause)` (WithQuery) instead of `stmt.with_cte(clause)`
+        match self {
+            Stmt::Select(s) if s.with.is_some() && s.api >= 128 => {
+                let mut bare = s.clone();
+                let w = bare.with.take().unwrap();
+                return Built::With(build_select(&bare, d).with(build_with(&w, d)));
+            }
+            Stmt::Insert(s) if s.with.is_some() && s.api >= 128 => {
+                let mut bare = s.clone();
+                let w = bare.with.take().unwrap();
+                return Built::With(build_insert(&bare, d).with(build_with(&w, d)));
+            }
+            Stmt::Update(s) if s.with.is_some() && s.api >= 128 => {
+                let mut bare = s.clone();
+                let w = bare.with.take().unwrap();
+                return Built::With(build_update(&bare, d).with(build_with(&w, d)));
+            }
+            Stmt::Delete(s) if s.with.is_some() && s.api >= 128 => {
+                let mut bare = s.clone();
+                let w = bare.with.take().unwrap();
+                return Built::With(build_delete(&bare, d).with(build_with(&w, d)));
+            }
+            _ => {}
+        }
         match self {
             Stmt::Select(s) => Built::Select(build_select(s, d)),
             Stmt::Insert(s) => Built::Insert(build_insert(s, d)),
